@@ -49,7 +49,7 @@ def _pair(args):
             pmin = float(np.sort(np.asarray(tab["pressure"], dtype=float))[1])
             sched = sdrv.make_schedule(cfg.get("sched", "none"), len(grid), cfg["pf"], cfg["pi"], max(pmin, 0.05 * cfg["pf"]),
                                        np.random.default_rng(cfg["seed"] + 1)) if cfg["kind"] == "single" else None
-            with warnings.catch_warnings():
+            with warnings.catch_warnings(), env.time_limit(600, "the simulation"):
                 warnings.simplefilter("ignore")
                 if sched is None:
                     obj.simulate(grid)
